@@ -74,15 +74,15 @@ int main() {
         TFheGateBootstrappingSecretKeySet *sk2 = imp_secret(sb, tr);
         // unencrypted values: a sample of the re-imported cloud key (i.e. of the exported bytes) whose mask is identically zero
         // carries its message in the clear; in a generated key only the all-zero sample may look like that
-        long clear = 0;
+        long clear = 0, unmasked = 0;     // unmasked: rows that must be fresh encryptions (h >= 1; every bootstrapping-key row) with an all-zero mask
         {
             const LweKeySwitchKey *ks2 = ck2->bk->ks; const long nrows = (long) ks2->n * ks2->t * ks2->base;
-            for (long r = 0; r < nrows; r++) { const LweSample *row = &ks2->ks0_raw[r]; bool z = true; for (int i = 0; i < n && z; i++) z = row->a[i] == 0; if (z && row->b != 0) clear++; }
+            for (long r = 0; r < nrows; r++) { const LweSample *row = &ks2->ks0_raw[r]; bool z = true; for (int i = 0; i < n && z; i++) z = row->a[i] == 0; if (z && row->b != 0) clear++; if (z && (r % ks2->base) != 0) unmasked++; }
             const TGswParams *gp = ck2->bk->bk_params; const int kpl = gp->kpl;
             for (int i = 0; i < n; i++) for (int q = 0; q < kpl; q++) { const TLweSample *row = &ck2->bk->bk[i].all_sample[q]; bool z = true;
                 for (int u = 0; u < k && z; u++) for (int j = 0; j < N && z; j++) z = row->a[u].coefsT[j] == 0;
                 bool bz = true; for (int j = 0; j < N && bz; j++) bz = row->a[k].coefsT[j] == 0;
-                if (z && !bz) clear++; }
+                if (z && !bz) clear++; if (z) unmasked++; }
         }
         bool re_c = exp_cloud(ck2, tr) == cb, re_s = exp_secret(sk2, tr) == sb;
         // both transports must write the same bytes
@@ -114,8 +114,8 @@ int main() {
             || p2->in_out_params->alpha_max != params->in_out_params->alpha_max || p2->tgsw_params->l != params->tgsw_params->l || p2->tgsw_params->Bgbit != params->tgsw_params->Bgbit
             || p2->tgsw_params->tlwe_params->alpha_min != params->tgsw_params->tlwe_params->alpha_min || p2->tgsw_params->tlwe_params->alpha_max != params->tgsw_params->tlwe_params->alpha_max
             || p2->tgsw_params->tlwe_params->N != N || p2->tgsw_params->tlwe_params->k != k) fields = false;
-        printf("%zu %zu %d %zu %zu %d %d %d %d %d %d %d %d %d %d %d %d %d %d %ld\n", cb.size(), sb.size(), prefix ? 1 : 0, sb.size() - cb.size(), pb.size(), n, N, k,
-               params->tgsw_params->l, params->ks_t, params->ks_basebit, found ? 1 : 0, re_c ? 1 : 0, re_s ? 1 : 0, gates_eq ? 1 : 0, dec_eq ? 1 : 0, fields ? 1 : 0, cross ? 1 : 0, dec_ok ? 1 : 0, clear);
+        printf("%zu %zu %d %zu %zu %d %d %d %d %d %d %d %d %d %d %d %d %d %d %ld %ld\n", cb.size(), sb.size(), prefix ? 1 : 0, sb.size() - cb.size(), pb.size(), n, N, k,
+               params->tgsw_params->l, params->ks_t, params->ks_basebit, found ? 1 : 0, re_c ? 1 : 0, re_s ? 1 : 0, gates_eq ? 1 : 0, dec_eq ? 1 : 0, fields ? 1 : 0, cross ? 1 : 0, dec_ok ? 1 : 0, clear, unmasked);
         fflush(stdout);
         delete_gate_bootstrapping_ciphertext(o2); delete_gate_bootstrapping_ciphertext(o1); delete_gate_bootstrapping_ciphertext_array(3, in);
         delete_gate_bootstrapping_secret_keyset(sk2); delete_gate_bootstrapping_cloud_keyset(ck2); delete_gate_bootstrapping_secret_keyset(sk);
